@@ -6,19 +6,25 @@ from BPTK_Py import Model, bptk
 from BPTK_Py.server import BptkServer
 import BPTK_Py.server.bptkServer as srvmod
 
-DESTROYED = []
+DESTROYED = []      # serial numbers of destroyed bptk objects (NOT id(): python reuses the id of a freed object)
+_SERIAL = [0]
+
+SM = ["sm"]          # name of the scenario manager the factory registers (a harness may switch it, e.g. to "2024")
+RUNSPEC = [1.0, 10.0, 1.0]
 
 def make_bptk():
-    m = Model(starttime=1.0, stoptime=10.0, dt=1.0, name="m")
+    m = Model(starttime=RUNSPEC[0], stoptime=RUNSPEC[1], dt=RUNSPEC[2], name="m")
     s = m.stock("s"); f = m.flow("f"); c = m.constant("c")
     s.initial_value = 0.0; c.equation = 1.0; f.equation = c; s.equation = f
     b = bptk()
     b.register_model(m)
-    b.register_scenario_manager({"sm": {"model": m}})
-    b.register_scenarios(scenario_manager="sm", scenarios={"base": {"constants": {"c": 1.0}}})
+    b.register_scenario_manager({SM[0]: {"model": m}})
+    b.register_scenarios(scenario_manager=SM[0], scenarios={"base": {"constants": {"c": 1.0}}})
     orig = b.destroy
+    _SERIAL[0] += 1
+    b._verif_serial = _SERIAL[0]
     def destroy(orig=orig, b=b):
-        DESTROYED.append(id(b)); return orig()
+        DESTROYED.append(b._verif_serial); return orig()
     b.destroy = destroy
     return b
 
@@ -46,7 +52,7 @@ def start(client, headers=None, timeout=None):
     return json.loads(r.data)["instance_uuid"]
 
 def begin(client, u, headers=None):
-    return client.post("/%s/begin-session" % u, json=BEGIN, headers=headers or {})
+    return client.post("/%s/begin-session" % u, json=dict(BEGIN, scenario_managers=[SM[0]]), headers=headers or {})
 
 def digest(app):
     """server-side state that a refused request must not change"""
@@ -54,7 +60,7 @@ def digest(app):
     for k, rec in app._instance_manager._instances.items():
         ss = rec["instance"].session_state
         d[k] = None if ss is None else (ss.get("step"), ss.get("lock"), len(ss.get("results_log", {}) or {}), repr(ss.get("settings_log"))[:200])
-    sc = app._bptk.get_scenario("sm", "base")
+    sc = app._bptk.get_scenario(SM[0], "base")
     return (d, dict(sc.constants), len(DESTROYED))
 
 SET = {"settings": {"sm": {"base": {"constants": {"c": 1.0}}}}}
@@ -63,7 +69,15 @@ def run(case):
     """case: list of ops on ONE instance:
        ('steps', n) run-steps | ('step',) run-step | ('stream_all',) | ('stream_open', k) read k chunks and keep it open
        | ('stream_close',) close the open stream | ('stream_finish',) read the open stream to the end | ('bad_steps',) run-steps that fails inside"""
-    app = make_app()
+    import tempfile, shutil
+    from BPTK_Py.externalstateadapter import FileAdapter
+    tmpd = tempfile.mkdtemp(prefix="c18_")
+    try:
+        return _run(case, make_app(adapter=FileAdapter(False, tmpd)))
+    finally:
+        shutil.rmtree(tmpd, ignore_errors=True)
+
+def _run(case, app):
     client = app.test_client()
     u = start(client); begin(client, u)
     inst = app._instance_manager._instances[u]["instance"]
@@ -111,6 +125,40 @@ def run(case):
                 return "op %d %r: lock not released after a failing run-steps" % (n, op)
             if locked_before and not inst.is_locked():
                 return "op %d %r: a refused request released the lock held by the request in progress" % (n, op)
+        elif op[0] == "save":
+            # another client externalises the whole server state: this must not change any lock or clock
+            r = client.get("/save-state")
+            if inst.is_locked() != locked_before:
+                return "op %d %r: /save-state changed the lock of the instance from %r to %r" % (n, op, locked_before, inst.is_locked())
+            if clock() != c0:
+                return "op %d %r: /save-state moved the session clock" % (n, op)
+        elif op[0] == "bad_step":
+            # a step whose settings cannot be applied: the request ends by error; no step is delivered, so the clock must not move
+            r = client.post("/%s/run-step" % u, json={"settings": {"sm": {"base": {"constants": None}}}})
+            delivered = []
+            if r.status_code == 200:
+                try:
+                    delivered = parse_steps([json.loads(r.data)])
+                except Exception:
+                    delivered = []
+            times.extend(delivered)
+            if not locked_before and clock() != c0 + len(delivered):
+                return "op %d %r: the request returned %d step(s) (status %d) but the session clock advanced from %r to %r" % (n, op, len(delivered), r.status_code, c0, clock())
+            if not locked_before and inst.is_locked():
+                return "op %d %r: lock left set after a failing run-step" % (n, op)
+        elif op[0] == "bad_steps2":
+            r = client.post("/%s/run-steps" % u, json={"settings": {"sm": {"base": {"constants": None}}}, "numberSteps": 2})
+            delivered = []
+            if r.status_code == 200:
+                try:
+                    delivered = parse_steps(json.loads(r.data))
+                except Exception:
+                    delivered = []
+            times.extend(delivered)
+            if not locked_before and clock() != c0 + len(delivered):
+                return "op %d %r: run-steps returned %d step(s) (status %d) but the session clock advanced from %r to %r" % (n, op, len(delivered), r.status_code, c0, clock())
+            if not locked_before and inst.is_locked():
+                return "op %d %r: lock not released after a failing run-steps" % (n, op)
         elif op[0] == "step":
             r = client.post("/%s/run-step" % u, json=SET)
             if locked_before:
@@ -176,7 +224,7 @@ def run(case):
         return "a simulation time was produced twice: %r" % (times,)
     return None
 
-case = [('stream_open', 2), ('steps', 1), ('step',), ('steps', 2), ('stream_finish',)]
+case = [('step',), ('bad_step',), ('step',), ('bad_steps2',), ('steps', 2)]
 bad = run(case)
 print("script:", case)
 print("FAIL: " + bad if bad else "PASS")
